@@ -129,19 +129,22 @@ theorem call_segment {s : Store} {fs : Fs} {w : Worker} (fsHas : Nat → Bool) (
     · rename_i id p
       simp only [Option.some.injEq] at hrec; subst hrec
       obtain ⟨seg0, hseg0⟩ := lastSegment_some h.openBytes.length
+      by_cases hidx : id.index + 1 = U64
+      · simp only [Store.call, hseg0, Store.appendBatch, if_pos hidx]
+        intro seg hs; cases hs
       have g := appendAndApply_J fsHas h (r := .append id p) (hop (id, p) List.mem_cons_self) hfs
       rcases hres : s.appendAndApply fsHas (.append id p) with ⟨res, s', e'⟩
       rw [hres] at g
       have gs := g.seg
       cases res with
       | ok seg' =>
-        simp only [Store.call, hseg0, Store.appendBatch, hres, List.nil_append]
+        simp only [Store.call, hseg0, Store.appendBatch, if_neg hidx, hres, List.nil_append]
         exact gs
       | err k =>
-        simp only [Store.call, hseg0, Store.appendBatch, hres, List.nil_append]
+        simp only [Store.call, hseg0, Store.appendBatch, if_neg hidx, hres, List.nil_append]
         intro seg hs; cases hs
       | panic m =>
-        simp only [Store.call, hseg0, Store.appendBatch, hres, List.nil_append]
+        simp only [Store.call, hseg0, Store.appendBatch, if_neg hidx, hres, List.nil_append]
         intro seg hs; cases hs
     · cases hrec
   | truncate idx =>
@@ -169,7 +172,10 @@ theorem call_segment {s : Store} {fs : Fs} {w : Worker} (fsHas : Nat → Bool) (
     | none => simp [Store.opRecord, hn] at hrec
     | some nxt =>
       simp only [Store.opRecord, hn] at hrec
-      simp only [Store.call, hn]
+      by_cases hidx : upto.index + 1 = U64
+      · rw [call_purge_refused_D12 _ _ _ hidx]
+        intro seg hs; cases hs
+      simp only [Store.call, if_neg hidx, hn]
       by_cases h1 : upto.index < nxt
       · simp [h1] at hrec
       · simp only [h1, if_false, Option.some.injEq] at hrec ⊢; subst hrec
